@@ -844,6 +844,9 @@ func (s *recordingSpan) snapshot() ReadOnlySpan {
 		sd.links = s.links.copy()
 		sd.droppedLinkCount = s.links.droppedCount
 	}
+	// Drops are also counted when nothing is retained (a count limit of 0).
+	sd.droppedEventCount = s.events.droppedCount
+	sd.droppedLinkCount = s.links.droppedCount
 	return &sd
 }
 
